@@ -14,7 +14,7 @@ for pid in sorted(reg.PROPS):
         evidence_file="evidence/%s.json" % pid,
         replay_cmd_template="./check --replay {path}",
         engine="vx",
-        level_claimed=dict(category=P.get("level", "proof"), text=P["level_text"], design_ref=P.get("design_ref", "DESIGN.md §5")),
+        level_claimed=dict(category=P.get("level", "proof"), text=P["level_text"] + ((" " + P["level_text_extra"]) if P.get("level_text_extra") else ""), design_ref=P.get("design_ref", "DESIGN.md §5")),
         level_note=P["level_note"],
         technique=P["technique"],
     ))
